@@ -126,7 +126,23 @@ def r5(repo, chk):
     chk.ob("R5", "_get_or_create_stream_for_send queues a blocked stream on the list _unblock_streams drains and announces STREAMS_BLOCKED", ok, "a blocked stream that is not queued stays blocked after MAX_STREAMS", g.loc(g.node))
 
 
+def r1_reset_final_size(repo, chk):
+    """the final size a RESET_STREAM declares is a claim on flow-control credit like data: it may only name bytes that
+    were actually sent (highest_offset, which get_frame keeps within both limits), not bytes merely written"""
+    gr = Fn(repo, "quic.stream:QuicStreamSender.get_reset_frame")
+    rets = [r for r in gr.returns() if isinstance(r.value, ast.Call) and call_name(r.value) == "QuicResetStreamFrame"]
+    ok = len(rets) == 1 and len(gr.returns()) == 1
+    fs = gr.expand(get_kw(rets[0].value, "final_size", 1)) if ok and get_kw(rets[0].value, "final_size", 1) is not None else None
+    chk.ob("R1", "get_reset_frame declares the highest offset actually sent as the final size", ok and fs == "self.highest_offset", f"final_size={fs}: a reset of a stream with flow-control-blocked data claims bytes beyond the peer's limits (the peer closes with FLOW_CONTROL_ERROR) and that credit is never charged", gr.loc(gr.node))
+    wr = Fn(repo, CONN + "_write_reset_stream_frame")
+    pushed = [norm(c.args[0]) for c in wr.calls(suffix="push_uint_var") if c.args]
+    fr = [norm(t) for st, t, v in wr.assigns() if isinstance(v, ast.Call) and call_name(v).endswith("get_reset_frame")]
+    ok = len(fr) == 1 and pushed == [f"{fr[0]}.stream_id", f"{fr[0]}.error_code", f"{fr[0]}.final_size"]
+    chk.ob("R1", "_write_reset_stream_frame writes the final size of the frame the sender produced", ok, f"pushed {pushed}", wr.loc(wr.node))
+
+
 def r1(repo, chk):
+    r1_reset_final_size(repo, chk)
     callers = []
     for m in repo.modules.values():
         if m.path.endswith(".pyi"):
